@@ -48,8 +48,37 @@ example : Gen.matrix_SwapRows #[#[1, 2], #[3, 4], #[5, 6]] 0 2 = some (#[#[5, 6]
 example : Gen.matrix_SwapRows #[#[1, 2], #[3, 4]] 0 2 = some (#[#[1, 2], #[3, 4]], some "errInvalidRowSize") :=
   C17m_SwapRows_invalid _ 0 2 (by decide)
 
+/-- `identityMatrix(n)` is the `n × n` identity, every `n > 0` -/
+theorem C17m_identityMatrix (n : Nat) (hn : 0 < n) :
+    Gen.identityMatrix (n : Int) = some (arr n n (fun i j => if i = j then 1 else 0), none) :=
+  GenInvert.identity_arr n hn
+
+/-- `Augment` of an `n × w1` and an `n × w2` matrix is `[A | B]`: columns `< w1` from the receiver, the rest from
+`right`, every shape below the `int` wrap-around -/
+theorem C17m_Augment (n w1 w2 : Nat) (A B : Nat → Nat → Nat) (hn : 0 < n) (h1 : 0 < w1) (h2 : 0 < w2)
+    (hb : w1 + w2 < 2 ^ 63) :
+    Gen.matrix_Augment (arr n w1 A) (arr n w2 B) =
+      some (arr n (w1 + w2) (fun i j => if j < w1 then A i j else B i (j - w1)), none) :=
+  GenInvert.augment_arr n w1 w2 A B hn h1 h2 (by omega)
+
+/-- `Augment` of matrices with different row counts reports `errMatrixSize` and does not panic -/
+theorem C17m_Augment_size (m right : Array (Array Nat)) (h : m.size ≠ right.size) :
+    Gen.matrix_Augment m right = some (#[], some "errMatrixSize") := by
+  unfold Gen.matrix_Augment
+  have hc : (Int.ofNat m.size) ≠ (Int.ofNat right.size) := by
+    simp only [Int.ofNat_eq_natCast]; omega
+  rw [if_pos hc]
+  rfl
+
+example : Gen.matrix_Augment #[#[1, 2], #[3, 4]] #[#[5], #[6]] = some (#[#[1, 2, 5], #[3, 4, 6]], none) := by
+  decide +kernel
+example : Gen.identityMatrix 2 = some (#[#[1, 0], #[0, 1]], none) := by decide +kernel
+
 end RSV.Props.C17submatrix
 
 #print axioms RSV.Props.C17submatrix.C17m_SubMatrix
 #print axioms RSV.Props.C17submatrix.C17m_SwapRows
 #print axioms RSV.Props.C17submatrix.C17m_SwapRows_invalid
+#print axioms RSV.Props.C17submatrix.C17m_identityMatrix
+#print axioms RSV.Props.C17submatrix.C17m_Augment
+#print axioms RSV.Props.C17submatrix.C17m_Augment_size
